@@ -12,8 +12,10 @@ META = {
 
 def run(ctx):
     return mworld.run_family(
-        ctx, "C14", scenarios=[5, 6], impls=['overlay-basic', 'overlay-mutable', 'overlay-empty'],
-        sections=['snap:changed'],
+        ctx, "C14", scenarios=[5, 6, 9], impls=['overlay-basic', 'overlay-mutable', 'overlay-empty', 'tagsoverlay'],
+        max_paths={6: 100000, 9: 100000},
+        impl_caps={6: {'overlay-mutable': 500, 'overlay-empty': 500, 'tagsoverlay': 100000}, 9: {'overlay-mutable': 300, 'overlay-empty': 300}},
+        sections=['snap:changed', 'lookup', 'search', 'each', 'problems'],
         select=lambda e: len(e['to']['snaps']) > 0,
         meta_rule='every transition in states with >= 1 snapshot executed via its shortest prefix on 3 overlay constructions + random walks',
-        assumptions=['Snapshot() of MutableOverlayWorld; MutableTagsOverlayWorld is not covered'])
+        assumptions=['MutableTagsOverlayWorld takes part on histories of AddTag and Snapshot only (it has no other edit operation)'])
